@@ -2,15 +2,18 @@
 #include "harness.h"
 #include "gen.h"
 #define SLOTS 8
-static const void* L_ptr[SLOTS]; static i32 L_cls[SLOTS]; static int L_bad_ctor, L_bad_dtor, L_bad_src, L_overflow, L_ctors, L_dtors;
+static const void* L_ptr[SLOTS]; static i32 L_cls[SLOTS]; static i32 L_val[SLOTS]; static int L_bad_val; static int L_bad_ctor, L_bad_dtor, L_bad_src, L_overflow, L_ctors, L_dtors;
 static u8 g_sched[10]; static int g_k, g_threw;
 void hook_ctor(i32 cls, const void* p) { L_ctors++; for (int i = 0; i < SLOTS; i++) if (L_ptr[i] == p) L_bad_ctor = 1; for (int i = 0; i < SLOTS; i++) if (L_ptr[i] == 0) { L_ptr[i] = p; L_cls[i] = cls; return; } L_overflow = 1; }
 void hook_dtor(i32 cls, const void* p) { L_dtors++; for (int i = 0; i < SLOTS; i++) if (L_ptr[i] == p) { if (L_cls[i] != cls) L_bad_dtor = 1; L_ptr[i] = 0; return; } L_bad_dtor = 1; }
+/* hook_val(p, v >= 0): the object at p now holds v (construction / assignment); hook_val(p, -1 - v): it is about to be destroyed holding v.
+ * An object destroyed with a value it was never given has been relocated or overwritten behind the back of its constructors. */
+void hook_val(const void* p, i32 v) { for (int i = 0; i < SLOTS; i++) if (L_ptr[i] == p) { if (v >= 0) L_val[i] = v; else if (L_val[i] != -1 - v) L_bad_val = 1; return; } }
 void hook_src(i32 cls, const void* p) { for (int i = 0; i < SLOTS; i++) if (L_ptr[i] == p && L_cls[i] == cls) return; L_bad_src = 1; }
 i32 hook_throw(i32 site) { (void)site; if (g_k < 10 && g_sched[g_k++]) { g_threw = 1; return 1; } return 0; }
-static void ledger_reset(const u8* sched) { for (int i = 0; i < SLOTS; i++) { L_ptr[i] = 0; L_cls[i] = 0; } L_bad_ctor = L_bad_dtor = L_bad_src = L_overflow = L_ctors = L_dtors = 0; g_k = g_threw = 0; for (int i = 0; i < 10; i++) g_sched[i] = sched[i]; }
+static void ledger_reset(const u8* sched) { for (int i = 0; i < SLOTS; i++) { L_ptr[i] = 0; L_cls[i] = 0; } L_bad_ctor = L_bad_dtor = L_bad_src = L_bad_val = L_overflow = L_ctors = L_dtors = 0; g_k = g_threw = 0; for (int i = 0; i < 10; i++) g_sched[i] = sched[i]; }
 #define LEDGER_OK() do { VASSERT(!L_bad_ctor, "no object is constructed over a live one"); VASSERT(!L_bad_dtor, "every destroyed object was alive and of that type (no double destruction)"); \
-    VASSERT(!L_bad_src, "copies and moves read only live objects (no use after destruction)"); VASSERT(!L_overflow, "ledger capacity"); \
+    VASSERT(!L_bad_src, "copies and moves read only live objects (no use after destruction)"); VASSERT(!L_overflow, "ledger capacity"); VASSERT(!L_bad_val, "an object is destroyed where, and with the value, it was constructed or assigned (no raw relocation of contained objects)"); \
     int live_ = 0; for (int i_ = 0; i_ < SLOTS; i_++) live_ += L_ptr[i_] != 0; VASSERT(live_ == 0 && L_ctors == L_dtors, "every contained object is destroyed exactly once"); } while (0)
 #define OBS_OK(o, what) do { i64 k_ = (o)[0]; VASSERT(k_ <= 4, what ": type() is void or one of the stored types"); VASSERT((o)[1] == (k_ != 0) && (o)[2] == (k_ == 0), what ": has_value()/empty() describe the state"); \
     VASSERT((o)[4] == (k_ ? 1 << (k_ - 1) : 0) && (o)[5] == (o)[4], what ": pointer any_cast succeeds only for exactly the stored type (const or not)"); \
